@@ -1,6 +1,38 @@
--- shard 19 of the closeness / tick-gap sweep (C06 (c), (e)): |tick| in [622592, 655360)
+-- shard 19 of the closeness / tick-gap sweep (C06 (c), (e)): |tick| in [622592, 655360), 16 blocks of 2^11
 import Proofs.Lemmas.ClosePred
 namespace Demeter.TickClose
 set_option maxRecDepth 100000 in
-theorem close_shard_19 : chkN closeSweepPred 622592 shardBits = true := by decide +kernel
+theorem close_blk_622592 : chkN closeSweepPred 622592 11 = true := by decide +kernel
+set_option maxRecDepth 100000 in
+theorem close_blk_624640 : chkN closeSweepPred 624640 11 = true := by decide +kernel
+set_option maxRecDepth 100000 in
+theorem close_blk_626688 : chkN closeSweepPred 626688 11 = true := by decide +kernel
+set_option maxRecDepth 100000 in
+theorem close_blk_628736 : chkN closeSweepPred 628736 11 = true := by decide +kernel
+set_option maxRecDepth 100000 in
+theorem close_blk_630784 : chkN closeSweepPred 630784 11 = true := by decide +kernel
+set_option maxRecDepth 100000 in
+theorem close_blk_632832 : chkN closeSweepPred 632832 11 = true := by decide +kernel
+set_option maxRecDepth 100000 in
+theorem close_blk_634880 : chkN closeSweepPred 634880 11 = true := by decide +kernel
+set_option maxRecDepth 100000 in
+theorem close_blk_636928 : chkN closeSweepPred 636928 11 = true := by decide +kernel
+set_option maxRecDepth 100000 in
+theorem close_blk_638976 : chkN closeSweepPred 638976 11 = true := by decide +kernel
+set_option maxRecDepth 100000 in
+theorem close_blk_641024 : chkN closeSweepPred 641024 11 = true := by decide +kernel
+set_option maxRecDepth 100000 in
+theorem close_blk_643072 : chkN closeSweepPred 643072 11 = true := by decide +kernel
+set_option maxRecDepth 100000 in
+theorem close_blk_645120 : chkN closeSweepPred 645120 11 = true := by decide +kernel
+set_option maxRecDepth 100000 in
+theorem close_blk_647168 : chkN closeSweepPred 647168 11 = true := by decide +kernel
+set_option maxRecDepth 100000 in
+theorem close_blk_649216 : chkN closeSweepPred 649216 11 = true := by decide +kernel
+set_option maxRecDepth 100000 in
+theorem close_blk_651264 : chkN closeSweepPred 651264 11 = true := by decide +kernel
+set_option maxRecDepth 100000 in
+theorem close_blk_653312 : chkN closeSweepPred 653312 11 = true := by decide +kernel
+theorem close_shard_19 : chkN closeSweepPred 622592 shardBits = true :=
+  (chkN_join _ 622592 14 (chkN_join _ 622592 13 (chkN_join _ 622592 12 (chkN_join _ 622592 11 close_blk_622592 close_blk_624640) (chkN_join _ 626688 11 close_blk_626688 close_blk_628736)) (chkN_join _ 630784 12 (chkN_join _ 630784 11 close_blk_630784 close_blk_632832) (chkN_join _ 634880 11 close_blk_634880 close_blk_636928))) (chkN_join _ 638976 13 (chkN_join _ 638976 12 (chkN_join _ 638976 11 close_blk_638976 close_blk_641024) (chkN_join _ 643072 11 close_blk_643072 close_blk_645120)) (chkN_join _ 647168 12 (chkN_join _ 647168 11 close_blk_647168 close_blk_649216) (chkN_join _ 651264 11 close_blk_651264 close_blk_653312))))
 end Demeter.TickClose
